@@ -4,6 +4,7 @@
 package internal
 
 //@ func MemClr
+//@   names buf
 //@   facet C10
 //@   modifies buf[*]
 //@   ensures [C10:all-zero] forall i int :: 0 <= i && i < len(buf) ==> buf[i] == 0
@@ -32,6 +33,7 @@ package internal
 
 
 //@ func NewCryptoKey
+//@   names factory, created, revoked, key
 //@   facet C10, C02
 //@   requires factory != nil
 //@   modifies key[*]
@@ -53,6 +55,7 @@ package internal
 // ---- C09: secrets are created by exactly two constructors and released by Close ----
 
 //@ func GenerateKey
+//@   names factory, created, size
 //@   facet C09, C03
 //@   requires factory != nil
 //@   modifies live
@@ -65,6 +68,7 @@ package internal
 
 // Close is idempotent through sync.Once: once it has returned, the key's secret has been closed.
 //@ func (*CryptoKey).Close
+//@   names k
 //@   facet C09
 //@   requires k != nil
 //@   modifies live(k.secret)
@@ -73,15 +77,18 @@ package internal
 // ---- C04 / C05: validity tests are exactly the documented ones ----
 
 //@ func IsKeyExpired
+//@   names created, expireAfter
 //@   facet C04
 //@   ensures [C04:expired-iff-older-than-lifetime] result == (now() > created * 1000000000 + int(expireAfter))
 
 //@ func (*CryptoKey).Revoked
+//@   names k
 //@   facet C05
 //@   requires k != nil
 //@   ensures [C05:revoked-reads-the-flag] result == (k.revoked == 1)
 
 //@ func (*CryptoKey).SetRevoked
+//@   names k, revoked
 //@   facet C05
 //@   requires k != nil
 //@   modifies k.revoked
@@ -94,12 +101,14 @@ package internal
 //@ extern rand.Read
 //@   implements randReader
 //@ func fillRandom
+//@   names buf, r
 //@   facet C03
 //@   inline
 //@   param r randReader
 //@   requires r != nil
 //@   modifies buf[*]
 //@ func FillRandom
+//@   names buf
 //@   facet C03
 //@   modifies buf[*]
 //@   ensures [C03:returns-only-after-crypto-rand-filled-the-buffer] ncalls(Read) == 1 && arg(Read, 1, b) == buf && retis(Read, 1, 1, nil)
